@@ -12,6 +12,7 @@ import (
 	dtlserrors "github.com/pion/dtls/v3/internal/errors"
 	dtlsstate "github.com/pion/dtls/v3/internal/state"
 	dtlsutil "github.com/pion/dtls/v3/internal/util"
+	"github.com/pion/dtls/v3/pkg/crypto/keyschedule"
 	"github.com/pion/dtls/v3/pkg/crypto/prf"
 	"github.com/pion/dtls/v3/pkg/protocol"
 	"github.com/pion/dtls/v3/pkg/protocol/handshake"
@@ -23,6 +24,7 @@ type State struct {
 	localEpoch, remoteEpoch   uint16
 	localRandom, remoteRandom handshake.Random
 	masterSecret              []byte
+	exporterSecret            []byte // DTLS 1.3 exporter_master_secret
 	sequenceNumber            uint64
 	srtpProtectionProfile     SRTPProtectionProfile
 	peerSRTPMKI               []byte
@@ -136,6 +138,7 @@ func generateState13(internalState *dtlsstate.State13) (*State, error) {
 		rrcNegotiated:         common.RRCNegotiated,
 		isClient:              common.IsClient,
 		version:               protocol.Version1_3,
+		exporterSecret:        bytes.Clone(internalState.KeySchedule.ExporterMasterSecret),
 		CipherSuiteID:         internalState.CipherSuite.ID(),
 		PeerCertificates:      dtlsutil.CloneByteSlices(common.PeerCertificates),
 		IdentityHint:          bytes.Clone(common.IdentityHint),
@@ -320,6 +323,9 @@ func (s *State) ExportKeyingMaterial(label string, context []byte, length int) (
 	} else if _, ok := invalidKeyingLabels()[label]; ok {
 		return nil, dtlserrors.ErrReservedExportKeyingMaterial
 	}
+	if s.version.Equal(protocol.Version1_3) {
+		return s.exportKeyingMaterial13(label, length)
+	}
 	cipherSuite, err := s.initializedCipherSuite()
 	if err != nil {
 		return nil, err
@@ -336,6 +342,27 @@ func (s *State) ExportKeyingMaterial(label string, context []byte, length int) (
 	}
 
 	return prf.PHash(s.masterSecret, seed, length, cipherSuite.HashFunc())
+}
+
+// exportKeyingMaterial13 is the RFC 8446 section 7.5 exporter (with the RFC 9147
+// label prefix), keyed by the exporter_master_secret of the DTLS 1.3 handshake:
+//
+//	HKDF-Expand-Label(Derive-Secret(exporter_master_secret, label, ""), "exporter", Hash(""), length)
+func (s *State) exportKeyingMaterial13(label string, length int) ([]byte, error) {
+	cipherSuite := ciphersuite.ForID(s.CipherSuiteID, nil)
+	if cipherSuite == nil {
+		return nil, dtlserrors.ErrCipherSuiteNotSet
+	}
+	if len(s.exporterSecret) == 0 {
+		return nil, dtlserrors.ErrHandshakeInProgress
+	}
+	hashFunc := cipherSuite.HashFunc()
+	derived, err := keyschedule.DeriveSecret(hashFunc, s.exporterSecret, label, nil)
+	if err != nil {
+		return nil, err
+	}
+
+	return keyschedule.HkdfExpandLabel(hashFunc, derived, "exporter", hashFunc().Sum(nil), length)
 }
 
 // RemoteRandomBytes returns the remote client hello random bytes.
